@@ -27,7 +27,7 @@ from . import common as C
 from . import fakeif as F
 from . import c20_bmc as B
 
-GENS = ['cli']
+GENS = ['cli', 'api', 'layouts']
 MODEL_MAP = [
     {'python': 'pyipmi/ipmitool.py:COMMANDS, cmd_* handlers (names of the Ipmi operations they use), '
                'getopt string, option if/elif chain, except clauses of main', 'coq': 'Gen.CliTable (GENERATED each run)'},
@@ -44,12 +44,22 @@ MODEL_MAP = [
     {'python': 'pyipmi/ipmitool.py:main 647-666 (try / except / finally around open + cmd) + pyipmi/__init__.py:Ipmi.open/close + '
                'pyipmi/session.py:Session.establish/close', 'coq': 'Model.Cli.main_run/do_steps (shape: Gen.CliTable.run_shape, GENERATED)'},
     {'python': 'int(s, 0) / int(s)', 'coq': 'Model.Cli.int_base0/int_base10'},
+    {'python': 'pyipmi/ipmitool.py: single-call handlers (which operation, where its arguments come from) + the bodies of those '
+               'operations in pyipmi/{bmc,chassis,sensor,picmg}.py + their message layouts',
+     'coq': 'Gen.CliTable.call_specs + Gen.ApiContent + Gen.Layouts (all GENERATED each run), composed by Model.CliApi.cli_request '
+            'through Model.ApiSem/ApiRun (C07)'},
 ]
 TRUSTED = ['translator gen/gen_cli.py (fail-closed; its output is compared with the live COMMANDS / Ipmi objects each run)',
            'ast.literal_eval (the -r routing literal; a Section variable in Coq, its result is passed to the checker)',
            'the conforming BMC harness/c20_bmc.py and the table API_EQUIV of "corresponding API calls" (specification side)']
 
 SCRATCH = C.BUILD / 'c20'
+# commands covered by theorem C20_same_request (mirror of Proofs/CliApiProofs.v:cli_api_spec); the others
+# are decided by the oracle only (oracle_only there) - both lists are copied into the evidence
+THEOREM_COVERED = ['bmc info', 'bmc reset cold', 'bmc reset warm', 'sensor rearm', 'picmg frucontrol cr', 'picmg power get',
+                   'picmg portstate get', 'picmg channel status', 'picmg send heartbeat', 'chassis status',
+                   'chassis power off', 'chassis power on', 'chassis power cycle', 'chassis power reset',
+                   'chassis power diag', 'chassis power soft']
 POWER_CODES = {'off': 0, 'on': 1, 'cycle': 2, 'reset': 3, 'diag': 4, 'soft': 5}     # IPMI 2.0 table 28-4
 
 
@@ -934,6 +944,11 @@ def run(ctx):
             if isinstance(o.exc, (AttributeError, TypeError)) and not o.requests():
                 resolved_ok = False
             main_case(options + c.name.split(' ') + args, o, 'command')
+            if c.name in THEOREM_COVERED and o.exc is None and all(printable(a) for a in args):
+                r = o.requests()
+                add('chk_cli_request %s %s %s' % (C.c_str(c.name), c_strs(args), C.c_opt(
+                    None if len(r) != 1 else '(mkReq %d %d %d %s)' % (r[0][0], r[0][1], r[0][2], C.c_hex(bytes.fromhex(r[0][3]))))),
+                    ('cli-request', c.name, args))
             D.add(('cmd-run', c.name, tuple(args), repr(sorted(spec.items())), tuple(options)), True, 'command-run')
         add('chk_resolves %s %s' % (C.c_nat(i), C.c_bool(resolved_ok)), ('resolves', c.name))
     # OEM / id-less SDR records must not crash the sdr commands (well-formed replies)
@@ -1130,13 +1145,15 @@ def run(ctx):
             v.found_input = False
             fails[key] = v
 
-    failing, errors = C.coq_cases('C20', 'Lib.Prog Model.Cli Gen.CliTable Corr.C20', terms)
+    failing, errors = C.coq_cases('C20', 'Lib.Prog Model.Cli Model.CliApi Gen.CliTable Corr.C20', terms)
     res.mismatches = [{'case': meta[i], 'term': terms[i][:1500]} for i in failing[:50]]
     res.corr_errors = errors
     res.evaluations += len(terms)
     res.distinct_nontrivial = D.distinct
     res.histogram = D.hist
     res.extra['ops_uncovered'] = uncovered
+    res.extra['same_request_by_theorem'] = [c.name for c in cmds if c.name in THEOREM_COVERED]
+    res.extra['same_request_oracle_only'] = [c.name for c in cmds if c.name not in THEOREM_COVERED]
     res.rule = ('every COMMANDS entry x %d runs (argument vectors from the per-command grammar, numbers dec/hex where the tool '
                 'reads base 0; BMC contents varied: SDR sets incl. OEM records, SEL sizes, device support bits, chassis state; '
                 'random option prefixes incl. both session styles) compared request-by-request with the corresponding API call; '
